@@ -110,6 +110,13 @@ def do_harmless(ids, props=None):
     """behaviour-preserving rewrites: every check (or --props) must stay quiet (exit 0, or 2 = undecided, never a VIOLATION)"""
     hd = os.path.join(VERIF, 'seeded_harmless')
     allp = props or ['C%02d' % i for i in range(1, 21)]
+    # a check can only be affected by a rewrite of a module it reads (recorded by every check in its evidence: modules_read)
+    reads = {}
+    for p in allp:
+        try:
+            reads[p] = set(json.load(open(os.path.join(VERIF, 'evidence', p + '.json')))['coverage'].get('modules_read') or [])
+        except (OSError, ValueError, KeyError):
+            reads[p] = set()
     for sid in ids or sorted(os.listdir(hd)):
         d = os.path.join(hd, sid)
         if not os.path.exists(os.path.join(d, 'patch.diff')):
@@ -122,8 +129,13 @@ def do_harmless(ids, props=None):
             assert a.returncode == 0, a.stderr
             t = sh([PY, '-m', 'pytest', '-q', '-p', 'no:cacheprovider'], env=dict(os.environ, PYTHONPATH=wt + '/src'), cwd=wt, timeout=600)
             out['tests'] = t.stdout.strip().split('\n')[-1]
-            env = dict(os.environ, YLD_REPO_SRC=wt + '/src', VF_WORK='/tmp/vf-work-seed-%d' % os.getpid(), VF_EVIDENCE_DIR='/tmp/vf-evidence-seed-%d' % os.getpid())
+            env = dict(os.environ, YLD_REPO_SRC=wt + '/src', VF_WORK='/tmp/vf-work-seed-%d' % os.getpid(), VF_EVIDENCE_DIR='/tmp/vf-evidence-seed-%d' % os.getpid(),
+                       VF_STANDIN_SCALE=os.environ.get('VF_STANDIN_SCALE', '0.15'))
+            touched = {os.path.basename(l[6:]).replace('.py', '') for l in open(os.path.join(d, 'patch.diff')) if l.startswith('+++ b/')}
             for p in allp:
+                if not props and reads.get(p) and not (reads[p] & touched):
+                    out['checks'][p] = dict(exit=0, lines=[], skipped='reads none of the rewritten modules %s' % sorted(touched))
+                    continue
                 r = sh([os.path.join(VERIF, 'check'), p, '--tier', 'quick'], env=env, cwd=VERIF, timeout=3000)
                 lines = [l for l in r.stdout.split('\n') if l.startswith(('VIOLATION', 'UNDECIDED', 'CHECKER'))]
                 out['checks'][p] = dict(exit=r.returncode, lines=[l[:300] for l in lines[:4]])
